@@ -192,6 +192,10 @@ def crash_obligations(tier):
             q = dict(p)
             q["crash_only"] = True
             out.append(("fpcrash:" + oid[5:], q))
+    # integers beyond the range of a double (2**1024): the conversion saturates, it does not raise
+    for op in ("fpToFP-sbv", "fpToFP-ubv"):
+        for sort in ("DOUBLE", "FLOAT"):
+            out.append((f"fpcrash:{op}1100:RNE:{sort}", {"leg": "fold", "op": op, "rm": "RNE", "sort": sort, "n": 1100, "crash_only": True}))
     for ts in _TS:
         for op in ("fpToFP-bv", "fpToFP-sbv", "fpToFP-ubv", "fpToFP-fp"):
             out.append((f"fpcrash:{op}:into-{ts}", {"leg": "fold", "op": op, "rm": "RNE" if op != "fpToFP-bv" else "-", "sort": "DOUBLE", "n": 8, "tsort": ts, "crash_only": True}))
